@@ -2,10 +2,10 @@ package c12
 
 import (
 	"bufio"
-	"os"
 	"bytes"
 	"fmt"
 	"net"
+	"os"
 	"strings"
 	"testing"
 	"time"
@@ -28,10 +28,18 @@ type cred struct {
 }
 
 type attempt struct {
-	Kind string `json:"kind"` // "login" or "probe"
+	Kind string `json:"kind"` // "login", "probe", or "other" (ldap, ftp: a login attempt on another connection to the same service)
 	User string `json:"user,omitempty"`
 	Pass string `json:"pass,omitempty"`
 	DN   string `json:"dn,omitempty"` // ldap: how the user is presented
+	// how the credential is put on the wire when it is not the plain "command + argument" form
+	// ftp  UserForm: "" USER <user> | "noarg" USER | "space" USER<sp> | "skip" no USER command
+	// ftp  PassForm: "" PASS <pass> | "noarg" PASS | "space" PASS<sp> | "spaces" PASS<sp><sp><sp> | "skip" no PASS command
+	// ldap PassForm: "" simple password | "noauth" bind without authentication element |
+	//                "nodn" bind with the version only | "sasl" SASL PLAIN carrying the password
+	// ftp probes: PassForm "noarg" sends the gated command without its parameter
+	UserForm string `json:"user_form,omitempty"`
+	PassForm string `json:"pass_form,omitempty"`
 }
 
 type authCase struct {
@@ -170,11 +178,18 @@ func checkSSH(c authCase) error {
 // ---------------------------------------------------------------- ldap
 
 func ldapResultCodes(b []byte) []int {
+	codes, _ := ldapReplies(b)
+	return codes
+}
+
+// ldapReplies returns the result codes and the protocol-op tags of the replies
+func ldapReplies(b []byte) ([]int, []byte) {
 	// every reply is SEQUENCE{ msgid, [APPLICATION n]{ ENUMERATED code, ... } }
 	var out []int
+	var ops []byte
 	for len(b) > 2 {
 		if b[0] != 0x30 {
-			return out
+			return out, ops
 		}
 		l := int(b[1])
 		hdr := 2
@@ -187,7 +202,7 @@ func ldapResultCodes(b []byte) []int {
 			hdr = 2 + k
 		}
 		if hdr+l > len(b) {
-			return out
+			return out, ops
 		}
 		msg := b[hdr : hdr+l]
 		// skip message id
@@ -198,12 +213,38 @@ func ldapResultCodes(b []byte) []int {
 				body := msg[p+2:]
 				if op&0x1f != 4 && len(body) >= 3 && body[0] == 0x0a { // not a search entry
 					out = append(out, int(body[2]))
+					ops = append(ops, op)
 				}
 			}
 		}
 		b = b[hdr+l:]
 	}
-	return out
+	return out, ops
+}
+
+// own BER encoder for the bind requests that lack (part of) the credential
+func berTLV(tag byte, content ...[]byte) []byte {
+	var c []byte
+	for _, x := range content {
+		c = append(c, x...)
+	}
+	if len(c) < 128 {
+		return append([]byte{tag, byte(len(c))}, c...)
+	}
+	return append([]byte{tag, 0x82, byte(len(c) >> 8), byte(len(c))}, c...)
+}
+
+func ldapOddBind(id int, form, dn, pw string) []byte {
+	mid := berTLV(0x02, []byte{byte(id)})
+	ver := berTLV(0x02, []byte{3})
+	switch form {
+	case "nodn":
+		return berTLV(0x30, mid, berTLV(0x60, ver))
+	case "noauth":
+		return berTLV(0x30, mid, berTLV(0x60, ver, berTLV(0x04, []byte(dn))))
+	default: // sasl: AuthenticationChoice [3] SaslCredentials{ mechanism, credentials }
+		return berTLV(0x30, mid, berTLV(0x60, ver, berTLV(0x04, []byte(dn)), berTLV(0xa3, berTLV(0x04, []byte("PLAIN")), berTLV(0x04, []byte("\x00"+svc.LDAPUser(dn)+"\x00"+pw)))))
+	}
 }
 
 func checkLDAP(c authCase) error {
@@ -217,13 +258,46 @@ func checkLDAP(c authCase) error {
 	loggedIn := false
 	known := true // whether the reference knows the login state (an anonymous re-bind is not covered by the statement)
 	id := 1
-	nBinds := 0
+	var others []*lab.Conn
+	defer func() {
+		for _, o := range others {
+			o.CloseWrite()
+		}
+	}()
 	for si, st := range c.Steps {
+		if st.Kind == "other" {
+			// a bind on ANOTHER connection to the same service: judged by the same predicate,
+			// and without effect on this connection's login state
+			oip, oport := svc.NextClient()
+			o := srv.L.DialTCP(&net.TCPAddr{IP: svc.ServerIP, Port: 389}, &net.TCPAddr{IP: oip, Port: oport})
+			others = append(others, o)
+			o.Send(svc.LDAPBind(1, st.DN, st.Pass))
+			switch o.WaitIdle(30 * time.Second) {
+			case lab.Closed:
+				return fmt.Errorf("step %d (other connection): server closed the connection", si)
+			case lab.Busy:
+				return fmt.Errorf("inconclusive: no quiescence within 30s at step %d", si)
+			}
+			oc := ldapResultCodes(o.Output())
+			if len(oc) != 1 {
+				return fmt.Errorf("step %d (other connection): %d replies to one bind", si, len(oc))
+			}
+			user := svc.LDAPUser(st.DN)
+			ok := c.accepts(user, st.Pass) || (user == "" && st.Pass == "")
+			if ok != (oc[0] == 0) {
+				return fmt.Errorf("step %d (other connection): bind as %q/%q answered with result %d, credential set %v says %v", si, user, st.Pass, oc[0], c.Set, ok)
+			}
+			continue
+		}
 		id++
 		before := len(ldapResultCodes(conn.Output()))
+		odd := st.Kind == "login" && st.PassForm != ""
 		if st.Kind == "login" {
-			nBinds++
-			conn.Send(svc.LDAPBind(id, st.DN, st.Pass))
+			if odd {
+				conn.Send(ldapOddBind(id, st.PassForm, st.DN, st.Pass))
+			} else {
+				conn.Send(svc.LDAPBind(id, st.DN, st.Pass))
+			}
 		} else {
 			switch st.User { // probe kind
 			case "modify":
@@ -240,11 +314,30 @@ func checkLDAP(c authCase) error {
 		}
 		switch conn.WaitIdle(30 * time.Second) {
 		case lab.Closed:
+			if odd {
+				// a bind request without a (simple) password may be answered by closing
+				return ldapEvents(c, cap, ip, port, si+1)
+			}
 			return fmt.Errorf("step %d: server closed the connection", si)
 		case lab.Busy:
 			return fmt.Errorf("inconclusive: no quiescence within 30s at step %d", si)
 		}
-		codes := ldapResultCodes(conn.Output())
+		codes, ops := ldapReplies(conn.Output())
+		if odd {
+			// a bind request that carries no simple password (no authentication element, no DN,
+			// SASL): no user/password pair of the credential set was presented, so whatever the
+			// service answers it must not be a successful bind response, and it is not a login
+			if len(codes) > before+1 {
+				return fmt.Errorf("step %d (%+v): %d replies to one request", si, st, len(codes)-before)
+			}
+			if len(codes) == before+1 && ops[before] == 0x61 && codes[before] == 0 {
+				return fmt.Errorf("step %d: bind without a simple password (%s, dn %q) was answered with bindResponse success", si, st.PassForm, st.DN)
+			}
+			if loggedIn {
+				known = false // whether a refused re-bind ends the earlier login is not covered by the statement
+			}
+			continue
+		}
 		if len(codes) != before+1 {
 			return fmt.Errorf("step %d (%+v): %d replies, expected exactly one", si, st, len(codes)-before)
 		}
@@ -290,7 +383,25 @@ func checkLDAP(c authCase) error {
 	}
 	conn.CloseWrite()
 	conn.WaitClosed(5 * time.Second)
-	// events: every bind attempt has an event with user as evaluated + password presented
+	return ldapEvents(c, cap, ip, port, len(c.Steps))
+}
+
+// ldapEvents: every bind attempt among the first n steps has an event with the user as
+// evaluated and the password presented. Bind requests without a simple password may or may
+// not be recorded as bind events (the statement speaks of the password presented).
+func ldapEvents(c authCase, cap *lab.Capture, ip net.IP, port int, n int) error {
+	var want []attempt
+	nOdd := 0
+	for _, st := range c.Steps[:n] {
+		if st.Kind != "login" {
+			continue
+		}
+		if st.PassForm != "" {
+			nOdd++
+			continue
+		}
+		want = append(want, st)
+	}
 	var binds []lab.Ev
 	cap.WaitFor(3*time.Second, func(all []lab.Ev) bool {
 		binds = nil
@@ -299,24 +410,28 @@ func checkLDAP(c authCase) error {
 				binds = append(binds, e)
 			}
 		}
-		return len(binds) >= nBinds
+		return len(binds) >= len(want)+nOdd
 	})
-	if len(binds) != nBinds {
-		return fmt.Errorf("%d bind events for %d bind attempts", len(binds), nBinds)
+	if len(binds) < len(want) || len(binds) > len(want)+nOdd {
+		return fmt.Errorf("%d bind events for %d bind attempts (%d of them without a simple password)", len(binds), len(want)+nOdd, nOdd)
 	}
+	// the well-formed attempts, in order, are a subsequence of the bind events
 	k := 0
-	for _, st := range c.Steps {
-		if st.Kind != "login" {
-			continue
-		}
-		e := binds[k]
-		k++
-		if e.Str("ldap.username") != svc.LDAPUser(st.DN) || e.Str("ldap.password") != st.Pass {
-			return fmt.Errorf("bind event carries user %q password %q, presented dn %q (user %q) password %q", e.Str("ldap.username"), e.Str("ldap.password"), st.DN, svc.LDAPUser(st.DN), st.Pass)
+	for _, e := range binds {
+		if k < len(want) && e.Str("ldap.username") == svc.LDAPUser(want[k].DN) && e.Str("ldap.password") == want[k].Pass {
+			k++
 		}
 		if e.SerErr != "" {
 			return fmt.Errorf("event does not serialise: %s", e.SerErr)
 		}
+	}
+	if k < len(want) {
+		st := want[k]
+		var got []string
+		for _, e := range binds {
+			got = append(got, fmt.Sprintf("%q/%q", e.Str("ldap.username"), e.Str("ldap.password")))
+		}
+		return fmt.Errorf("no bind event carries user %q password %q for the bind with dn %q (bind events in order: %v)", svc.LDAPUser(st.DN), st.Pass, st.DN, got)
 	}
 	return nil
 }
@@ -346,61 +461,172 @@ func checkFTP(c authCase) error {
 	se.Conn.WaitIdle(5 * time.Second)
 	loggedIn := false
 	var lines []string
-	send := func(line string) (string, error) {
-		before := len(ftpCodes(se.Conn.Output()))
-		lines = append(lines, line)
-		se.Conn.Send([]byte(line + "\r\n"))
-		switch se.Conn.WaitIdle(30 * time.Second) {
+	mainConn := se.Conn
+	var others []*lab.Conn
+	defer func() {
+		for _, o := range others {
+			o.CloseWrite()
+		}
+	}()
+	cur := se.Conn
+	send := func(line string) (string, error) { // on the connection cur
+		before := len(ftpCodes(cur.Output()))
+		if cur == mainConn {
+			lines = append(lines, line)
+		}
+		cur.Send([]byte(line + "\r\n"))
+		switch cur.WaitIdle(30 * time.Second) {
 		case lab.Closed:
 			return "", fmt.Errorf("server closed the connection after %q", line)
 		case lab.Busy:
 			// the harness's own wait ran out (loaded machine): not a verdict
 			return "", fmt.Errorf("inconclusive: no quiescence within 30s after %q", line)
 		}
-		codes := ftpCodes(se.Conn.Output())
+		codes := ftpCodes(cur.Output())
 		if len(codes) < before+1 {
 			return "", fmt.Errorf("%q: no reply", line)
 		}
 		return codes[before], nil
 	}
+	// pend: the user names the next PASS may be evaluated against. "" stands for "no user
+	// presented". A USER command the service refuses (missing argument) may or may not leave
+	// an earlier USER pending, and a failed or completed attempt may or may not clear it: the
+	// statement is silent, so every candidate is allowed and only what holds for all of them
+	// is required.
+	pend := []string{""}
+	addPend := func(u string) {
+		for _, x := range pend {
+			if x == u {
+				return
+			}
+		}
+		pend = append(pend, u)
+	}
 	for si, st := range c.Steps {
-		if st.Kind == "login" {
+		if st.Kind == "other" {
+			// a complete login attempt on ANOTHER connection to the same service: judged by the
+			// same predicate, and without effect on this connection's gate
+			o := in.Open(&svc.Script{Service: "ftp"})
+			others = append(others, o.Conn)
+			o.Conn.WaitIdle(5 * time.Second)
+			cur = o.Conn
 			code, err := send("USER " + st.User)
+			if err == nil && code != "331" {
+				err = fmt.Errorf("step %d (other connection): USER answered %s", si, code)
+			}
+			if err == nil {
+				code, err = send("PASS " + st.Pass)
+			}
+			cur = mainConn
 			if err != nil {
 				return err
 			}
-			if code != "331" {
-				return fmt.Errorf("step %d: USER answered %s", si, code)
+			if ok := c.accepts(st.User, st.Pass); ok != (code == "230") {
+				return fmt.Errorf("step %d (other connection): login %q/%q answered %s, credential set says %v", si, st.User, st.Pass, code, ok)
 			}
-			code, err = send("PASS " + st.Pass)
-			if err != nil {
-				return err
+			continue
+		}
+		if st.Kind == "login" {
+			if st.UserForm != "skip" {
+				line := "USER " + st.User
+				arg := st.User
+				switch st.UserForm {
+				case "noarg":
+					line, arg = "USER", ""
+				case "space":
+					line, arg = "USER ", ""
+				}
+				code, err := send(line)
+				if err != nil {
+					return err
+				}
+				if arg != "" {
+					if code != "331" {
+						return fmt.Errorf("step %d: %q answered %s", si, line, code)
+					}
+					pend = []string{arg}
+				} else {
+					// no user name presented: not a login whatever the reply is
+					if code[0] == '2' {
+						return fmt.Errorf("step %d: %q (no user name) answered %s", si, line, code)
+					}
+					if code[0] == '3' {
+						pend = []string{""}
+					} else {
+						addPend("")
+					}
+				}
 			}
-			ok := c.accepts(st.User, st.Pass)
-			if ok && code != "230" {
-				return fmt.Errorf("step %d: login %q/%q is in the credential set but answered %s", si, st.User, st.Pass, code)
-			}
-			if !ok && code[0] == '2' {
-				return fmt.Errorf("step %d: login %q/%q is NOT in the credential set but answered %s", si, st.User, st.Pass, code)
-			}
-			if ok {
-				loggedIn = true
-			}
-		} else {
-			if loggedIn && (st.User == "LIST" || st.User == "NLST") {
-				// once logged in these wait for a data connection (bounded, seconds) and answer
-				// twice: they are exercised by C09/C11; here they only probe the gate
+			if st.PassForm == "skip" {
 				continue
 			}
-			code, err := send(st.User) // probe command line
+			line := "PASS " + st.Pass
+			pass := st.Pass
+			switch st.PassForm {
+			case "noarg":
+				line, pass = "PASS", ""
+			case "space":
+				line, pass = "PASS ", ""
+			case "spaces":
+				line, pass = "PASS    ", ""
+			}
+			code, err := send(line)
 			if err != nil {
 				return err
 			}
-			if !loggedIn && code != "530" {
-				return fmt.Errorf("step %d: %q before any successful login answered %s, want 530", si, st.User, code)
+			allowed, required := false, true
+			var okUsers []string
+			for _, u := range pend {
+				if c.accepts(u, pass) {
+					allowed = true
+					okUsers = append(okUsers, u)
+				} else {
+					required = false
+				}
+			}
+			if required && code != "230" {
+				return fmt.Errorf("step %d: login %q/%q is in the credential set but answered %s", si, pend, pass, code)
+			}
+			if !allowed && code[0] == '2' {
+				return fmt.Errorf("step %d: %q after user %q: the pair is NOT in the credential set but answered %s", si, line, pend, code)
+			}
+			if code[0] == '2' {
+				loggedIn = true
+				pend = append([]string{""}, okUsers...)
+			} else {
+				addPend("")
+			}
+		} else {
+			verb := st.User
+			if i := strings.IndexByte(verb, ' '); i > 0 {
+				verb = verb[:i]
+			}
+			if loggedIn && (verb == "LIST" || verb == "NLST" || verb == "RETR" || verb == "STOR" || verb == "APPE" || verb == "PORT" || verb == "EPRT") {
+				// once logged in these wait for / open a data connection (bounded, seconds) and may
+				// answer twice: they are exercised by C09/C11; here they only probe the gate
+				continue
+			}
+			line := st.User // probe command line
+			if st.PassForm == "noarg" {
+				line = verb // the gated command without its parameter
+			}
+			code, err := send(line)
+			if err != nil {
+				return err
+			}
+			addPend("") // whether a USER stays pending across another command is not covered by the statement
+			if !loggedIn {
+				if st.PassForm == "noarg" && line != st.User {
+					// missing parameter: any refusal will do (553 or 530), but not an execution
+					if code[0] != '5' {
+						return fmt.Errorf("step %d: %q before any successful login answered %s, want a refusal", si, line, code)
+					}
+				} else if code != "530" {
+					return fmt.Errorf("step %d: %q before any successful login answered %s, want 530", si, line, code)
+				}
 			}
 			if loggedIn && code == "530" {
-				return fmt.Errorf("step %d: %q after a successful login answered 530", si, st.User)
+				return fmt.Errorf("step %d: %q after a successful login answered 530", si, line)
 			}
 		}
 	}
@@ -416,7 +642,14 @@ func checkFTP(c authCase) error {
 		}
 		return len(got) >= len(lines)
 	})
-	if strings.Join(got, "\n") != strings.Join(lines, "\n") {
+	trimAll := func(l []string) string {
+		var o []string
+		for _, x := range l {
+			o = append(o, strings.TrimRight(x, " "))
+		}
+		return strings.Join(o, "\n")
+	}
+	if trimAll(got) != trimAll(lines) {
 		return fmt.Errorf("ftp.command events %q, commands sent %q (every USER/PASS attempt must be recorded)", got, lines)
 	}
 	return nil
@@ -432,6 +665,9 @@ func check(c authCase) error {
 		return checkFTP(c)
 	}
 }
+
+var ftpProbes = []string{"PWD", "MKD probe", "RMD probe", "DELE probe", "CWD /", "CDUP", "LIST", "NLST", "SIZE probe", "MDTM probe", "RNFR probe", "PASV", "TYPE I", "SYST",
+	"RETR probe", "STOR probe", "APPE probe", "RNTO probe", "REST 0", "MODE S", "STRU F", "EPSV", "PORT 10,0,0,1,4,1", "EPRT |1|10.0.0.1|1025|"}
 
 func genSet(t *rapid.T, allowEmptyUser bool) []cred {
 	n := rapid.IntRange(0, 3).Draw(t, "setsize")
@@ -449,15 +685,27 @@ func nontrivial(c authCase) bool {
 	failed := false
 	success := false
 	for _, s := range c.Steps {
+		if s.Kind == "other" {
+			continue
+		}
 		if s.Kind == "login" {
-			u := s.User
+			u, pw := s.User, s.Pass
 			if c.Service == "ldap" {
 				u = svc.LDAPUser(s.DN)
+			}
+			if s.PassForm == "skip" {
+				continue // ftp: USER only, no attempt completed
+			}
+			if s.UserForm != "" {
+				u = ""
 			}
 			if failed {
 				return true
 			}
-			if c.accepts(u, s.Pass) {
+			if s.PassForm != "" {
+				pw = ""
+			}
+			if s.PassForm == "" && s.UserForm == "" && c.accepts(u, pw) {
 				success = true
 			} else {
 				failed = true
@@ -478,7 +726,7 @@ func TestAuth(t *testing.T) {
 		}
 		return
 	}
-	r.Rule("credential sets of size 0..3 over users {root,admin,guest,''} x passwords {root,admin,123456,''} (+ wildcard for the ssh simulator, the only service that defines one) configured through TOML on a fresh server; attempt sequences of length 1..4 on one connection (ssh: per user; ldap: DN forms cn=U,dc=.. / U / anonymous; ftp: fixed set anonymous:anonymous) with gated-operation probes before and after each attempt; oracle = reference predicate pair-in-set, per-attempt auth events with evaluated user and presented password, gated ops refused (ldap 53 / ftp 530) until a login succeeded on this connection; non-trivial = failing attempt followed by another attempt, or a probe before a success")
+	r.Rule("credential sets of size 0..3 over users {root,admin,guest,''} x passwords {root,admin,123456,''} (+ wildcard for the ssh simulator, the only service that defines one) configured through TOML on a fresh server; attempt sequences of length 1..4 on one connection (ssh: per user; ldap: DN forms cn=U,dc=.. / U / anonymous, plus bind requests without authentication element / without DN / with SASL instead of a simple password; ftp: fixed set anonymous:anonymous, user and password each from configured / not configured / empty argument (USER, USER<sp>, PASS, PASS<sp>..) / command not sent, so also PASS without USER, USER without PASS and probes between them) with gated-operation probes (ftp: also without their parameter) before and after each attempt; ldap and ftp: attempts on further connections to the same service interleaved (no effect on this connection's gate); oracle = reference predicate pair-in-set, per-attempt auth events with evaluated user and presented password, gated ops refused (ldap 53 / ftp 530, any 5xx when the parameter is missing) until a login succeeded on this connection; non-trivial = failing attempt followed by another attempt, or a probe before a success")
 	r.Rapid(t, "TestAuth", r.Pick(1200, 25000), func(rt *rapid.T) {
 		c := authCase{Service: rapid.SampledFrom([]string{"ssh", "ldap", "ldap", "ftp"}).Draw(rt, "service")}
 		if only := os.Getenv("C12_ONLY"); only != "" {
@@ -506,17 +754,52 @@ func TestAuth(t *testing.T) {
 					dn = rapid.SampledFrom([]string{"cn=%s,dc=example,dc=com", "%s", "cn=%s", "sn=%s,ou=x", "%s,dc=example"}).Draw(rt, "dnform")
 					dn = fmt.Sprintf(dn, u)
 				}
-				c.Steps = append(c.Steps, attempt{Kind: "login", User: u, DN: dn, Pass: rapid.SampledFrom(passes).Draw(rt, "p")})
+				st := attempt{Kind: "login", User: u, DN: dn, Pass: rapid.SampledFrom(passes).Draw(rt, "p")}
+				// the attempt may be made on another connection to the same service
+				if rapid.IntRange(0, 5).Draw(rt, "otherconn") == 0 {
+					st.Kind = "other"
+					c.Steps = append(c.Steps, st)
+					continue
+				}
+				// the credential may also be (partly) missing from the request
+				if rapid.IntRange(0, 5).Draw(rt, "oddbind") == 0 {
+					st.PassForm = rapid.SampledFrom([]string{"noauth", "nodn", "sasl"}).Draw(rt, "bindform")
+					if st.PassForm == "nodn" {
+						st.User, st.DN, st.Pass = "", "", ""
+					} else if st.PassForm == "noauth" {
+						st.Pass = ""
+					}
+				}
+				c.Steps = append(c.Steps, st)
 			}
 		default:
 			c.Set = []cred{{"anonymous", "anonymous"}}
 			n := rapid.IntRange(1, 6).Draw(rt, "nsteps")
 			for i := 0; i < n; i++ {
 				if rapid.IntRange(0, 2).Draw(rt, "probe") == 0 {
-					c.Steps = append(c.Steps, attempt{Kind: "probe", User: rapid.SampledFrom([]string{"PWD", "MKD probe", "RMD probe", "DELE probe", "CWD /", "CDUP", "LIST", "NLST", "SIZE probe", "MDTM probe", "RNFR probe", "PASV", "TYPE I", "SYST"}).Draw(rt, "op")})
+					st := attempt{Kind: "probe", User: rapid.SampledFrom(ftpProbes).Draw(rt, "op")}
+					// the gated command without its parameter
+					if strings.Contains(st.User, " ") && rapid.IntRange(0, 3).Draw(rt, "noparam") == 0 {
+						st.PassForm = "noarg"
+					}
+					c.Steps = append(c.Steps, st)
 					continue
 				}
-				c.Steps = append(c.Steps, attempt{Kind: "login", User: rapid.SampledFrom([]string{"anonymous", "root", "admin", "ftp"}).Draw(rt, "u"), Pass: rapid.SampledFrom([]string{"anonymous", "root", "x@y", "ftp"}).Draw(rt, "p")})
+				// a complete attempt on another connection to the same service
+				if rapid.IntRange(0, 5).Draw(rt, "otherconn") == 0 {
+					c.Steps = append(c.Steps, attempt{Kind: "other", User: rapid.SampledFrom([]string{"anonymous", "anonymous", "root"}).Draw(rt, "ou"), Pass: rapid.SampledFrom([]string{"anonymous", "anonymous", "root"}).Draw(rt, "op")})
+					continue
+				}
+				// user and password each drawn from configured / not configured / empty (in the
+				// spellings an empty argument can have) / command not sent at all
+				st := attempt{Kind: "login", User: rapid.SampledFrom([]string{"anonymous", "anonymous", "root", "admin", "ftp", "ghost", "Anonymous", ""}).Draw(rt, "u"), Pass: rapid.SampledFrom([]string{"anonymous", "anonymous", "root", "x@y", "ftp", "", ""}).Draw(rt, "p")}
+				if st.User == "" {
+					st.UserForm = rapid.SampledFrom([]string{"noarg", "space", "skip"}).Draw(rt, "userform")
+				}
+				if st.Pass == "" {
+					st.PassForm = rapid.SampledFrom([]string{"noarg", "noarg", "space", "spaces", "skip"}).Draw(rt, "passform")
+				}
+				c.Steps = append(c.Steps, st)
 			}
 		}
 		fp := ""
